@@ -73,6 +73,50 @@ func flowsToField(v ssa.Value) string {
 				work = append(work, item{r.(ssa.Value), it.prefix, it.d + 1})
 			case *ssa.Extract:
 				work = append(work, item{x, it.prefix, it.d + 1})
+			case *ssa.Return:
+				// returned by a private helper: continue at its call sites
+				if curProg == nil {
+					break
+				}
+				fn := x.Parent()
+				sites, only := curProg.staticCallSites(fn)
+				if !only {
+					break
+				}
+				for i, rv := range x.Results {
+					if rv != it.v {
+						continue
+					}
+					for _, cs := range sites {
+						cv, ok := cs.(ssa.Value)
+						if !ok {
+							continue
+						}
+						if len(x.Results) == 1 {
+							work = append(work, item{cv, it.prefix, it.d + 1})
+							continue
+						}
+						for _, cr := range *cv.Referrers() {
+							if ex, ok := cr.(*ssa.Extract); ok && ex.Index == i {
+								work = append(work, item{ex, it.prefix, it.d + 1})
+							}
+						}
+					}
+				}
+			case *ssa.Call:
+				// handed to a constructor of the package: continue at its parameter
+				if curProg == nil {
+					break
+				}
+				callee := x.Call.StaticCallee()
+				if callee == nil || callee.Blocks == nil || pkgOfFn(callee) == nil || pkgOfFn(callee).Pkg.Path() != pkgPath("codecs") {
+					break
+				}
+				for i, a := range x.Call.Args {
+					if a == it.v && i < len(callee.Params) {
+						work = append(work, item{callee.Params[i], it.prefix, it.d + 1})
+					}
+				}
 			}
 		}
 	}
@@ -276,6 +320,21 @@ func codecSignature(p *Prog, fn *ssa.Function, partial *types.Named, version int
 			if mentions(ta) {
 				return true
 			}
+		}
+		// a private reading helper of this method: it is handed the body reader and returns what it read
+		takesReader, returnsData := false, false
+		for i := 0; i < sig.Params().Len(); i++ {
+			if n := namedOf(sig.Params().At(i).Type()); n != nil && n.Obj().Name() == "FrameBodyReader" {
+				takesReader = true
+			}
+		}
+		for i := 0; i < sig.Results().Len(); i++ {
+			if !types.Identical(sig.Results().At(i).Type(), errType) {
+				returnsData = true
+			}
+		}
+		if takesReader && returnsData && onlyCalledFrom(p, h, fn, 2) {
+			return true
 		}
 		return false
 	}
@@ -627,17 +686,22 @@ func codecLayouts(p *Prog, r *Report, pfx string) {
 	uses := 0
 	g := p.Global("codecs", "CustomMessageCodecs")
 	if initFn != nil {
-		eachCall(initFn, func(c ssa.CallInstruction) {
-			if callIsFunc(c, "frame", "NewRawCodec") || callIsFunc(c, "frame", "NewRawCodecWithCompression") {
-				for _, a := range c.Common().Args {
-					for _, o := range origins(a) {
-						if ld, ok := o.(*ssa.UnOp); ok && sameGlobal(ld.X, g) {
-							uses++
+		// (the codecs may be built in helpers the initialisers call: the message codecs are followed
+		// from the helper's parameter to its call sites; a helper called twice counts per site that
+		// hands it the partial codecs)
+		for _, f := range withCallees(p, initFn, 2) {
+			eachCall(f, func(c ssa.CallInstruction) {
+				if callIsFunc(c, "frame", "NewRawCodec") || callIsFunc(c, "frame", "NewRawCodecWithCompression") {
+					for _, a := range c.Common().Args {
+						for _, o := range originsInter(p, a, 2) {
+							if ld, ok := o.(*ssa.UnOp); ok && sameGlobal(ld.X, g) {
+								uses++
+							}
 						}
 					}
 				}
-			}
-		})
+			})
+		}
 	}
 	r.check(uses >= 3, pfx+".registered", "codecs.CustomRawCodec*", p.Pos(g.Pos()), fmt.Sprintf("%d raw codecs built from the partial codecs", uses),
 		fmt.Sprintf("only %d of the proxy's raw codecs (plain, lz4, snappy) are built from CustomMessageCodecs", uses))
